@@ -6,7 +6,9 @@ M1  TLC checks Wal.tla's FlipBit action (FlipNeverServed) over tiny records - th
 M2  TLC -simulate generates small WAL shapes; value-log / SST / DB contents are value-size lists.
     harness/cmd/corrupt builds each with the real code, flips single bits of the files (quick: strided
     sample, thorough: every bit of the small files) and reads back through wal.VerifyDir/Replay,
-    vlog VerifyDir/ReadValue/Iterate, the table reader (Search + scan) and DB.Get after reopening.
+    vlog VerifyDir/ReadValue/Iterate, the table reader (Search + scan; the same after the hot-key prefetch
+    loader ran for every key; a scan with PrefetchBlocks) and DB.Get after reopening (with and without
+    LSM.Prefetch of every key first).
 M3  TLC validates the observations against spec/Wal/CorruptPropTrace.tla (IsSubSeq + value equality).
 """
 import json, os, sys, re, subprocess
@@ -115,13 +117,15 @@ def run(ctx):
     for i in range(2 if quick else 4):
         recs = vals(7 if quick else (6 if i < 2 else 10))
         bits = 8 * (200 + sum(r["size"] + 40 for r in recs))
-        stride = (max(1, bits // 1500) | 1) if quick else (1 if i < 2 else 5)   # thorough: every bit of two tables
-        add({"kind": "sst", "recs": recs, "stride": stride, "offset": ctx.seed + i}, bits // stride * 10)
-    for f in ("sst", "vlog"):
+        stride = (max(1, bits // 800) | 1) if quick else (1 if i < 2 else 5)   # thorough: every bit of two tables
+        add({"kind": "sst", "recs": recs, "stride": stride, "offset": ctx.seed + i}, bits // stride * 25)
+    # DB level: .sst files read with and without the hot-key prefetch running before the first Get; .vlog files
+    for f, pre in (("sst", True), ("sst", False), ("vlog", False)):
         for i in range(1 if quick else 2):
             recs = [{"size": ctx.rng.choice([33, 40, 64, 70, 100])} for _ in range(6)]
-            mx = 10 if quick else 40
-            add({"kind": "db", "file": f, "recs": recs, "stride": 211 if f == "sst" else 97, "max": mx, "offset": ctx.seed * 7 + i}, mx * 1000)
+            mx = (7 if f == "sst" else 8) if quick else 40
+            add({"kind": "db", "file": f, "prefetch": pre, "recs": recs, "stride": 211 if f == "sst" else 97, "max": mx,
+                 "offset": ctx.seed * 7 + i}, mx * 1000)
     ctx.log("M2: %d WAL shapes from TLC, %d jobs" % (len(shapes), len(jobs)))
     traces = run_driver(ctx, jobs)
     order = sorted(traces)
@@ -172,17 +176,21 @@ def run(ctx):
     distinct = set()
     for s in order:
         b = traces[s][0]
+        first_mode = traces[s][1]["mode"] if len(traces[s]) > 1 else ""
         for e in traces[s][1:]:
-            flips[b["kind"]] = flips.get(b["kind"], 0) + e["n"]
+            if e["mode"] == first_mode:
+                flips[b["kind"]] = flips.get(b["kind"], 0) + e["n"]
             if e["panic"]:
                 panics += e["n"]
             if e["err"] or e["got"] != b["orig"] or (e["reads"] and e["reads"] != b["want"]):
-                noticed += e["n"]
-                distinct.add((s, e["file"], e["from"]))
+                if e["mode"] == first_mode:
+                    noticed += e["n"]
+                distinct.add((s, e["file"], e["from"], e["mode"]))
     total = sum(flips.values())
     ctx.evidence("fault_enumeration", {
         "evaluations": total, "distinct_nontrivial": len(distinct),
-        "rule": "one evaluation = one flipped bit of a WAL segment / value-log file / SST file (table reader) / SST or value-log file of a DB "
+        "rule": "one evaluation = one flipped bit of a WAL segment / value-log file / SST file (table reader: plain reads, reads after the hot-key "
+                "prefetch loader, scan with iterator prefetch) / SST or value-log file of a DB "
                 "(DB.Get after reopen); quick: strided sample with a seed-dependent offset, thorough: every bit of the small WAL / value-log files and of two SSTs, every 5th bit of two larger SSTs (DB: sample); "
                 "non-trivial = the flip changed the observation (error, missing record, panic), distinct = distinct (job, file, first bit) "
                 "observation ranges",
